@@ -117,7 +117,17 @@ func runSolver(ctx context.Context, sp solverSpec, file string, timeout int) (st
 	cmd.Run()
 	d := time.Since(start)
 	txt := out.String()
-	first := strings.TrimSpace(strings.SplitN(txt, "\n", 2)[0])
+	first := ""
+	for _, l := range strings.Split(txt, "\n") {
+		l = strings.TrimSpace(l)
+		if l == "sat" || l == "unsat" || l == "unknown" || l == "timeout" {
+			first = l
+			break
+		}
+	}
+	if first == "" {
+		first = strings.TrimSpace(strings.SplitN(txt, "\n", 2)[0])
+	}
 	return first, txt, d
 }
 
